@@ -521,7 +521,7 @@ class FDE:
                 if isinstance(it, (dict, set)):
                     it = list(it)
                 if not isinstance(it, (list, tuple)) and type(it).__name__ not in _ITER_TYPES:
-                    raise Unsupported('for over non-concrete iterable: %s' % unparse(s.iter))
+                    raise (Raised('TypeError') if it is None or isinstance(it, (int, float)) else Unsupported('for over non-concrete iterable: %s' % unparse(s.iter)))
                 broke = False
                 for x in it:
                     self._assign(s.target, x, env, fi)
@@ -614,7 +614,7 @@ class FDE:
                 if isinstance(it, (dict, set)):
                     it = list(it)
                 if not isinstance(it, (list, tuple)) and type(it).__name__ not in _ITER_TYPES:
-                    raise Unsupported('for over non-concrete iterable: %s' % unparse(s.iter))
+                    raise (Raised('TypeError') if it is None or isinstance(it, (int, float)) else Unsupported('for over non-concrete iterable: %s' % unparse(s.iter)))
                 broke = False
                 for x in it:
                     self._assign(s.target, x, env, fi)
